@@ -742,6 +742,13 @@ func (ev *astEnv) call(n *ast.CallExpr) Value {
 	if fn.TypeParams().Len() > 0 {
 		panic(unsupported("generic function call in contract: " + fobj.Name()))
 	}
+	{
+		var res Value
+		got := false
+		if e.intrinsic(ev.s, nil, fn.String(), fn, args, n.Pos(), nil, func(v Value) { res = v; got = true }, fn.Signature.Results()) && got {
+			return res
+		}
+	}
 	return e.evalPureCall(ev.s, fn, args, nil)
 }
 
@@ -856,7 +863,22 @@ func (e *Exec) iteVal(cond *Term, a, b Value) Value {
 
 // ---- query construction with quantifier instantiation
 
-func (e *Exec) buildQuery(s *State, extra []*Term) string {
+func (e *Exec) render(asserts []string) string {
+	var b strings.Builder
+	b.WriteString("(set-option :produce-models true)\n(set-logic ALL)\n(declare-sort U 0)\n")
+	b.WriteString(e.c.Prelude(asserts))
+	for _, a := range asserts {
+		b.WriteString("(assert ")
+		b.WriteString(a)
+		b.WriteString(")\n")
+	}
+	b.WriteString("(check-sat)\n")
+	return b.String()
+}
+
+// buildQuery returns the full query and, when quantifier instantiation added anything, a light
+// query without the instantiation axioms (fewer hypotheses: unsat of the light query is sound too).
+func (e *Exec) buildQuery(s *State, extra []*Term) (string, string) {
 	c := e.c
 	var asserts []string
 	add := func(t *Term) {
@@ -903,6 +925,8 @@ func (e *Exec) buildQuery(s *State, extra []*Term) string {
 		addC(cd)
 	}
 	quants := append([]*Quant(nil), s.quants...)
+	nLight := len(asserts)
+	lightAsserts := append([]string(nil), asserts...)
 	for round := 0; round < 4; round++ {
 		progress := false
 		selIdx := e.selectIndices(asserts)
@@ -1010,16 +1034,11 @@ func (e *Exec) buildQuery(s *State, extra []*Term) string {
 			break
 		}
 	}
-	var b strings.Builder
-	b.WriteString("(set-option :produce-models true)\n(set-logic ALL)\n(declare-sort U 0)\n")
-	b.WriteString(c.Prelude(asserts))
-	for _, a := range asserts {
-		b.WriteString("(assert ")
-		b.WriteString(a)
-		b.WriteString(")\n")
+	full := e.render(asserts)
+	if len(asserts) == nLight {
+		return full, ""
 	}
-	b.WriteString("(check-sat)\n")
-	return b.String()
+	return full, e.render(lightAsserts)
 }
 
 // selectIndices finds index terms of select applications in the assertions and the definitions they use.
@@ -1040,7 +1059,7 @@ func (e *Exec) selectIndices(asserts []string) []*Term {
 				}
 				k := skipSexp(s, j)
 				idx := s[j:k]
-				if !seen[idx] && !strings.HasPrefix(idx, "#x") {
+				if !seen[idx] {
 					seen[idx] = true
 					out = append(out, &Term{S: idx, Sort: SBV(64)})
 				}
